@@ -27,16 +27,20 @@ def run_check(prop: str, tier: str, root: str, seed: int, write: bool = True, on
         if only_rule:
             rules = [r for r in rules if r[0] == only_rule]
         ctx.run_rules(rules)
-        if tier == "thorough" and hasattr(mod, "thorough"):
+        if tier == "thorough":
             ctx.current_rule = "thorough"
             try:
-                mod.thorough(ctx)
+                if hasattr(mod, "thorough"):
+                    mod.thorough(ctx)
+                from . import sweeps
+                sweeps.package_wide(ctx)
             except Exception as e:
                 ctx.analysis_errors.append(f"thorough: {type(e).__name__}: {e}")
         if tier == "thorough" and write and os.environ.get("BNPSA_NO_SELFTEST") != "1":
             from . import selftest
             try:
                 ctx.selftest = selftest.run_for_property(prop, root, seed)
+                ctx.selftest["independent_seeded_changes"] = selftest.run_seeds_for_property(prop, root)
             except Exception as e:
                 ctx.selftest = {"error": f"{type(e).__name__}: {e}"}
         return ctx.finish(getattr(mod, "EXPLANATION", "static rule instances over the source"))
